@@ -25,10 +25,12 @@ A = decoders.J9_ALPHABET
 def cases(ctx):
     rng = ctx.rng
     yield {"kind": "exhaustive"}
-    for i in range(ctx.per_shard(ctx.pick(60000, 2500000))):
-        yield {"kind": "rt", "seed": rng.getrandbits(32)}
-    for i in range(ctx.per_shard(ctx.pick(40000, 800000))):
-        yield {"kind": "malformed", "seed": rng.getrandbits(32)}
+    nrt, nmal = ctx.per_shard(ctx.pick(60000, 2500000)), ctx.per_shard(ctx.pick(40000, 800000))
+    for i in range(max(nrt, nmal)):
+        if i < nrt:
+            yield {"kind": "rt", "seed": rng.getrandbits(32)}
+        if i < nmal:
+            yield {"kind": "malformed", "seed": rng.getrandbits(32)}
 
 
 def round_trip(ctx, nc, plain, salt, case):
@@ -84,6 +86,10 @@ def rand_salt(rng):
 
 
 def check_case(ctx, case):
+    if case.get("kind") == "suite":
+        from .. import suite_workload
+
+        return suite_workload.run_for(ctx)
     nc = load.nc()
     k = case["kind"]
     if k == "exhaustive":
@@ -163,6 +169,11 @@ def malformed(ctx, nc, m, case):
 
 
 def run(ctx):
+    from .. import suite_workload
+
+    os_ = __import__("os")
+    os_.makedirs(os_.path.join(__import__("vf.load").load.VERIF, ".work"), exist_ok=True)
+    suite_workload.run_for(ctx)
     for case in cases(ctx):
         if ctx.expired():
             ctx.count("stopped_by_time_budget")
